@@ -1159,6 +1159,53 @@ func (c *Ctx) CorsDoc() *Doc {
 			}
 		}
 	}
+	// the Petstore shape: one operation of a path reads a credential header through its
+	// security scheme, another operation of the same path documents a header of that name
+	// as an ordinary parameter - the preflight names the header once
+	if d.Components != nil && len(d.Components.SecuritySchemes) > 0 {
+		for _, tpl := range SortedKeys(d.Paths) {
+			pi := d.Paths[tpl]
+			ops := pi.Ops()
+			if len(ops) < 2 || rapid.IntRange(0, 2).Draw(t, "credential_header_as_parameter") != 0 {
+				continue
+			}
+			header := ""
+			var reader *Operation
+			for _, mo := range ops {
+				for _, alt := range d.EffectiveSecurity(mo.Op) {
+					for _, name := range SortedKeys(alt) {
+						sch := d.Components.SecuritySchemes[name]
+						switch {
+						case sch == nil:
+						case sch.Type == "http" && strings.EqualFold(sch.Scheme, "bearer"):
+							header, reader = "Authorization", mo.Op
+						case sch.Type == "apiKey" && sch.In == "header":
+							header, reader = sch.Name, mo.Op
+						}
+					}
+				}
+			}
+			if header == "" {
+				continue
+			}
+			for _, mo := range ops {
+				if mo.Op == reader || len(d.EffectiveSecurity(mo.Op)) > 0 {
+					continue
+				}
+				dup := false
+				for _, pp := range append(append([]*Parameter{}, pi.Parameters...), mo.Op.Parameters...) {
+					if pp.In == "header" && strings.EqualFold(pp.Name, header) {
+						dup = true
+					}
+				}
+				if !dup {
+					mo.Op.Parameters = append(mo.Op.Parameters, &Parameter{Name: header, In: "header", Schema: &Schema{Type: "string"}})
+					c.Tag("cors:credential-header-also-a-parameter")
+				}
+				break
+			}
+		}
+	}
 	return d
 }
 
